@@ -8,7 +8,7 @@ and are restored afterwards.
 from . import common  # noqa: F401
 from ECAgent.Core import Agent, Environment, Component, Model, ComponentNotFoundError
 
-CLASSES = ["Agent", "Environment", "A", "B", "A1"]
+CLASSES = ["Agent", "Environment", "A", "B", "A1", "L"]      # L: a subclass of A that is only defined later in the program
 
 
 class P(Component):
@@ -19,7 +19,11 @@ class Q(Component):
     pass
 
 
-TYPES = {"P": P, "Q": Q}
+class R(P):
+    """A component type derived from P (type identity decides, not subclassing)."""
+
+
+TYPES = {"P": P, "Q": Q, "R": R}
 
 
 def outcome(exc):
@@ -46,7 +50,7 @@ def _run(prog):
     A = type("A", (Agent,), {})
     B = type("B", (Agent,), {})
     A1 = type("A1", (A,), {})
-    cls = {"Agent": Agent, "Environment": Environment, "A": A, "B": B, "A1": A1}
+    cls = {"Agent": Agent, "Environment": Environment, "A": A, "B": B, "A1": A1}      # "L" is added by the op "define"
     model = Model()
     serial = {}
     insts = []
@@ -62,6 +66,8 @@ def _run(prog):
     def obs():
         classes = []
         for n in CLASSES:
+            if n not in cls:
+                continue
             c = cls[n]
             get = []
             for tn, t in TYPES.items():
@@ -93,7 +99,13 @@ def _run(prog):
         exc = None
         ev = {"op": k}
         try:
-            if k == "attach_class":
+            if k == "define":
+                ev.update(cls="L")
+                if "L" not in cls:
+                    cls["L"] = type("L", (A,), {})
+            elif k in ("attach_class", "detach_class", "set_tag", "new") and op[1] not in cls:
+                continue
+            elif k == "attach_class":
                 _, c, T, s = op
                 ev.update(cls=c, T=T, s=s)
                 comp = TYPES[T](None, model)
@@ -149,8 +161,10 @@ def random_program(rng, length=14):
     for _ in range(length):
         r = rng.random()
         c = rng.choice(CLASSES)
-        T = rng.choice(["P", "Q"])
-        if r < 0.25:
+        T = rng.choice(["P", "Q", "R"])
+        if r < 0.04:
+            prog.append(["define"])
+        elif r < 0.25:
             ser += 1
             prog.append(["attach_class", c, T, ser])
         elif r < 0.38:
